@@ -377,6 +377,29 @@ def check(ctx):
                 used = [e_ for pc_, e_, _ in vs.effects if any(c_ == x[1] and pol_ for c_, pol_ in pc_) and any(y == x[1][2] for y in ir.walk(e_))]
                 if not used:
                     prop_ok, get_call = True, x[1][2]
+    if prop_ok:
+        # .. and the missing download is not dereferenced anywhere outside the "is not None" path (a log line that reports len(data)
+        # before the test turns 'no data' into a TypeError)
+        def _guarded(pc_):
+            return any(c_[0] == "cmp" and c_[1] == "is" and c_[2] == get_call and c_[3] == NONE and not pol_ for c_, pol_ in pc_)
+
+        def _derefs(t_):
+            for y in ir.walk(t_):
+                if y[0] in ("attr", "sub") and y[1] == get_call:
+                    return y
+                if y[0] == "call" and y[1] != get_call[1] and (get_call in y[2] or any(v_ == get_call for _, v_ in y[3])):
+                    return y
+            return None
+        uses = [(pc_, e_, n_) for pc_, e_, n_ in vs.effects] + [(pc_, t_, n_) for pc_, _, t_, n_ in vs.assigns] + list(vs.returns)
+        for pc_, e_, n_ in uses:
+            d_ = _derefs(e_)
+            if d_ is not None and not _guarded(pc_):
+                ctx.ob("C19.R5.propagate", f"{vh.qualname}|missing download never dereferenced", False, vh.where(n_) if n_ is not None else vh.where(),
+                       f"{ir.show(d_, maxdepth=3)} is evaluated on a path where the download can be None: an empty window raises instead of returning 'no data'")
+                break
+        else:
+            ctx.ob("C19.R5.propagate", f"{vh.qualname}|missing download never dereferenced", True, vh.where(),
+                   "every use of the download other than the None test sits on the 'is not None' path")
     ctx.ob("C19.R5.propagate", f"{vh.qualname}|None propagated", prop_ok, vh.where(),
            "get_versioned_results returns None when the download returns None" if prop_ok
            else "get_versioned_results does not return None when nothing was found (it would process None)")
